@@ -54,12 +54,12 @@ type world struct {
 	byXid  map[uint32]*frameState
 	byPtr  map[uintptr]*frameState
 
-	delivered    int
-	nilDelivered int
-	errorsSeen   []string
-	errStep      int
-	failStep     int // step at which the failing Read returned (-1 = not yet)
-	inFlightAtFail map[uint32]bool
+	delivered       int
+	nilDelivered    int
+	errorsSeen      []string
+	errStep         int
+	failStep        int // step at which the failing Read returned (-1 = not yet)
+	inFlightAtFail  map[uint32]bool
 	shutdownReqStep int
 	consumerStopped bool
 
@@ -75,8 +75,8 @@ type world struct {
 	faults hlib.Counter
 	maxima hlib.MaxCounter
 
-	states *hlib.KMV
-	trans  *hlib.KMV
+	states  *hlib.KMV
+	trans   *hlib.KMV
 	lastAbs uint64
 
 	readerSwitchInFull bool
@@ -84,6 +84,7 @@ type world struct {
 	prodOverlap        bool
 	activeProducers    int
 	decoderPastHeader  bool
+	budgets            []budgetRec
 }
 
 func (w *world) violate(oracle, class, site, detail string) {
@@ -321,10 +322,17 @@ func (p wrapParser) Parse(b []byte) (util.Message, error) {
 			simrt.Yield()
 		}
 	}
-	msg, err := w.parseUnderBudget(b, fs)
-	if !bytes.Equal(b, in) {
-		w.violate("input-stability", "input-modified-during-parse", "", fmt.Sprintf("frame xid=%#x was modified while it was being parsed (first difference at %d)", xid, firstDiff(b, in)))
+	checked := false
+	stable := func() {
+		// also runs when the parser task dies inside Parse (panic, budget overrun)
+		if !checked && !bytes.Equal(b, in) {
+			w.violate("input-stability", "input-modified-during-parse", "", fmt.Sprintf("frame xid=%#x was modified while it was being parsed (first difference at %d)", xid, firstDiff(b, in)))
+		}
+		checked = true
 	}
+	defer stable()
+	msg, err := w.parseUnderBudget(b, fs)
+	stable()
 	fs.parsed = true
 	fs.msg, fs.perr = msg, err
 	if msg != nil && !isNilMsg(msg) {
@@ -480,8 +488,8 @@ func (w *world) shutdownApp() {
 type rawMsg struct{ b []byte }
 
 func (r *rawMsg) MarshalBinary() ([]byte, error) { return append([]byte(nil), r.b...), nil }
-func (r *rawMsg) UnmarshalBinary([]byte) error    { return nil }
-func (r *rawMsg) Len() uint16                     { return uint16(len(r.b)) }
+func (r *rawMsg) UnmarshalBinary([]byte) error   { return nil }
+func (r *rawMsg) Len() uint16                    { return uint16(len(r.b)) }
 
 func (w *world) producer(pi int) {
 	p := &w.sc.Producers[pi]
